@@ -119,6 +119,9 @@ func cmdNestedFault(a Args) {
 					rep.Event("observation_fault_after_point_of_mutation_leaves_half_applied_rebalance")
 				}
 			}
+			if weak {
+				return // nothing is promised about a half-applied request; the case ends here
+			}
 			// whatever happened, the element is in the child now or not: read it back through the handle
 			if child.Count() == uint64(len(shadow))+1 {
 				shadow = append(shadow, 7001)
